@@ -29,13 +29,21 @@ def twins(u):
 
 def check_twin(ctx, backend, p, touch=False):
     Y = ctx.yarl(backend)
-    u, trace = prog.run(Y, p, touch=touch)
+    inter = []
+    u, trace = prog.run(Y, p, touch=touch, on_step=lambda x, op: inter.append(x))
     if u is None:
         ctx.case(False, label="skipped:rejected")
         return
     auth = u._netloc
     degenerate = bool(auth) and (auth.startswith("@") or auth.startswith(":") or "@:" in auth or auth.endswith(":") or auth.endswith("@") or ":@" in auth)
     ctx.case(degenerate or len(p.get("ops", ())) > 0, label="twin", key=(backend, json.dumps(jsonable(p), sort_keys=True)))
+    # objects the program passed through must not have been changed by the later steps (each is compared with a fresh twin)
+    for k, x in enumerate(inter[:-1]):
+        a0, b0 = observe(x), observe(pickle.loads(pickle.dumps(x)))
+        if a0 != b0:
+            ctx.check(False, "an intermediate URL of the program differs from its cache-free twin after later operations", observed={"fields": diff(a0, b0), "step": k, "raw_authority": x._netloc, "route": "intermediate"},
+                      expected="identical observations", entry="intermediate")
+            break
     for name, t in twins(u):
         # observe the cache-free twin first, then the original (whose cache may have been pre-filled by the constructor)
         b = observe(t)
